@@ -16,6 +16,14 @@ def is_digits(t):
     return z3.InRe(t, z3.Plus(DIGITS))
 
 
+def plain_or_sstr(t, isb):
+    if z3.is_string_value(t):
+        from .harness import decode_z3_string
+        v = decode_z3_string(t.as_string())
+        return bytes(ord(c) for c in v) if isb else v
+    return SStr(t, isb)
+
+
 def int_of_str(I, s, base=10):
     """int(s) for a symbolic string: defined on plain ASCII digit strings with optional
     sign; other accepted spellings (whitespace, underscores, non-ASCII digits) make
@@ -23,6 +31,13 @@ def int_of_str(I, s, base=10):
     if base != 10:
         raise Undecided("int(s, base)")
     t = s.term
+    sp = struct_parts(I, t)
+    if sp is not None and base == 10 and struct_is_digits(I, sp):
+        r = norm_int(z3.StrToInt(t))
+        if is_sym_int(r):
+            I.ghost.setdefault("nonneg", set()).add(r.get_id())
+            I.path.fact(r >= 0, "int() of a digit string is non-negative")
+        return r
     plain = is_digits(t)
     neg = z3.And(z3.PrefixOf(z3.StringVal("-"), t), is_digits(z3.SubString(t, 1, z3.Length(t) - 1)))
     if I.path.branch(plain):
@@ -76,6 +91,117 @@ def encode(I, s, enc="utf-8"):
     if enc in ("ascii", "us-ascii"):
         raise PyRaise(UnicodeEncodeError("ascii", "", 0, 1, "ordinal not in range(128)"), UnicodeEncodeError)
     raise Undecided("encode of non-ASCII str")
+
+
+# ------------------------------------------------------------------ structured strings
+# A symbolic string built as a concatenation of literals and ATOMS (string symbols whose alphabet and minimum
+# length the contract declares in cfg["atoms"] = {name: (alphabet, min_len)} and asserts in `requires`) can be
+# split / stripped / compared structurally, without the string solver.
+
+def struct_parts(I, term):
+    atoms = I.cfg.get("atoms") if I is not None else None
+    if not atoms:
+        return None
+    t = z3.simplify(term)
+
+    def flat(x):
+        if z3.is_app(x) and x.decl().kind() == z3.Z3_OP_SEQ_CONCAT:
+            r = []
+            for c in x.children():
+                r.extend(flat(c))
+            return r
+        return [x]
+    kids = flat(t)
+    out = []
+    for k in kids:
+        if z3.is_string_value(k):
+            from .harness import decode_z3_string
+            out.append(("lit", decode_z3_string(k.as_string())))
+        elif z3.is_const(k) and str(k) in atoms:
+            out.append(("atom", k))
+        else:
+            return None
+    return out
+
+
+def parts_term(parts):
+    ts = [z3.StringVal(v) if k == "lit" else v for k, v in parts if not (k == "lit" and v == "")]
+    if not ts:
+        return z3.StringVal("")
+    return ts[0] if len(ts) == 1 else z3.Concat(*ts)
+
+
+def atom_alpha(I, a):
+    return I.cfg["atoms"][str(a)]
+
+
+def struct_split(I, parts, sep, maxsplit):
+    """split on a single-character separator that no atom can contain"""
+    if len(sep) != 1 or any(sep in atom_alpha(I, v)[0] for k, v in parts if k == "atom"):
+        return None
+    out, cur, n = [], [], 0
+    for k, v in parts:
+        if k == "atom":
+            cur.append((k, v))
+            continue
+        while True:
+            i = v.find(sep)
+            if i < 0 or (maxsplit is not None and n >= maxsplit):
+                cur.append(("lit", v))
+                break
+            cur.append(("lit", v[:i]))
+            out.append(cur)
+            cur, n, v = [], n + 1, v[i + 1:]
+    out.append(cur)
+    return out
+
+
+def struct_strip(I, parts, left, right):
+    ws = " \t\n\r\x0b\x0c"
+    parts = [list(p) for p in parts]
+
+    def solid(p):
+        alpha, mn = atom_alpha(I, p[1])
+        return mn >= 1 and not (set(alpha) & set(ws))
+    if left:
+        while parts:
+            if parts[0][0] == "lit":
+                parts[0][1] = parts[0][1].lstrip(ws)
+                if parts[0][1] == "":
+                    parts.pop(0)
+                    continue
+                break
+            if solid(parts[0]):
+                break
+            return None
+    if right:
+        while parts:
+            if parts[-1][0] == "lit":
+                parts[-1][1] = parts[-1][1].rstrip(ws)
+                if parts[-1][1] == "":
+                    parts.pop()
+                    continue
+                break
+            if solid(parts[-1]):
+                break
+            return None
+    return [tuple(p) for p in parts]
+
+
+def struct_min_len(I, parts):
+    return sum(len(v) if k == "lit" else atom_alpha(I, v)[1] for k, v in parts)
+
+
+def struct_is_digits(I, parts):
+    if struct_min_len(I, parts) < 1:
+        return False
+    for k, v in parts:
+        if k == "lit":
+            if v and not (v.isdigit() and v.isascii()):
+                return False
+        elif not set(atom_alpha(I, v)[0]) <= set("0123456789"):
+            return False
+    return True
 
 
 def str_method(I, s, name):
@@ -151,6 +277,16 @@ def str_method(I, s, name):
     def split(I_, a, k):
         if conc(a):
             return native(a, k)
+        sp = struct_parts(I, me.term) if isinstance(s, SStr) else None
+        if sp is not None and a and isinstance(a[0], (bytes, str)):
+            sep = a[0].decode("latin-1") if isinstance(a[0], bytes) else a[0]
+            r = struct_split(I, sp, sep, a[1] if len(a) > 1 else None)
+            if r is not None:
+                outl = []
+                for piece in r:
+                    t = z3.simplify(parts_term(piece))
+                    outl.append(plain_or_sstr(t, isb))
+                return outl
         if len(a) == 2 and isinstance(a[1], int) and a[1] == 1 and isinstance(a[0], (bytes, str)):
             sep = as_sstr(a[0]).term
             i = z3.IndexOf(me.term, sep, 0)
@@ -158,6 +294,18 @@ def str_method(I, s, name):
                 return [s]
             return [SStr(z3.SubString(me.term, 0, i), isb),
                     SStr(z3.SubString(me.term, i + z3.Length(sep), z3.Length(me.term) - i - z3.Length(sep)), isb)]
+        if len(a) == 1 and isinstance(a[0], (bytes, str)) and len(a[0]) > 0:
+            # split on every occurrence: explored up to 4 parts (more -> undecided)
+            sep = as_sstr(a[0]).term
+            parts, rest = [], me.term
+            for _ in range(4):
+                i = z3.IndexOf(rest, sep, 0)
+                if I.path.branch(i < 0):
+                    parts.append(SStr(rest, isb))
+                    return parts
+                parts.append(SStr(z3.simplify(z3.SubString(rest, 0, i)), isb))
+                rest = z3.simplify(z3.SubString(rest, i + z3.Length(sep), z3.Length(rest) - i - z3.Length(sep)))
+            raise Undecided("split into more than 4 parts")
         raise Undecided("split on symbolic string")
 
     def strip_like(I_, a, k):
@@ -167,6 +315,11 @@ def str_method(I, s, name):
             return native(a, k)
         if a:
             raise Undecided("strip with explicit character set on symbolic string")
+        sp = struct_parts(I, me.term)
+        if sp is not None:
+            r = struct_strip(I, sp, name in ("strip", "lstrip"), name in ("strip", "rstrip"))
+            if r is not None:
+                return plain_or_sstr(z3.simplify(parts_term(r)), isb)
         t = me.term
         r = z3.String(fresh_name("stripped"))
         n = z3.Length(t)
